@@ -104,6 +104,18 @@ def check(ctx):
             else:
                 violated = ("merged names are looked up in a cache keyed by " + ("the un-escaped join of the row" if plain else
                             show(kk, maxdepth=3)[:60]) + ": two different value tuples with the same cache key share one merged name")
+    # the same through a preallocated result filled row by row:  out = np.empty(n, dtype="U.."); for i, row in ...: out[i] = key(row)
+    if violated is None and core is not None and core.op == "loopout" and isinstance(core.args[2], T) and core.args[2].op == "call" \
+            and core.args[2].args[0].op == "global" and core.args[2].args[0].args[0] in ("numpy.empty", "numpy.zeros", "numpy.full", "numpy.ndarray",
+                                                                                         "numpy.empty_like", "numpy.zeros_like", "numpy.full_like"):
+        pre = core.args[2]
+        dt = dict(pre.args[2]).get("dtype")
+        if pre.args[0].args[0].endswith("_like") and dt is None:
+            dt = const("<dtype of " + show(pre.args[1][0], maxdepth=2)[:30] + ">") if pre.args[1] else None
+        if dt is not None and not (dt.op == "global" and dt.args[0] in ("builtins.object", "numpy.object_")) \
+                and not (dt.op == "const" and const_value(dt) in ("object", "O")):
+            violated = ("the merged names are written into a preallocated array of fixed-width elements (dtype=" + show(dt, maxdepth=3)[:40] +
+                        "): a name longer than the width (escaping adds characters) is cut, so distinct tuples collide")
     # a fixed-width string array silently truncates long merged names
     if violated is None and core is not None and core.op == "call" and core.args[0].op == "global" \
             and core.args[0].args[0] in ("numpy.array", "numpy.asarray", "numpy.fromiter", "numpy.empty", "numpy.full"):
